@@ -217,6 +217,18 @@ class Gen:
                 o = self.minimal(cls)
                 o[wire] = v
                 add(o)
+        # an explicit null for every member whose declared type admits it (a peer may send "x": null instead of
+        # leaving x out): it must stay a null, not turn into the field's default
+        nullable = [f for f in fs if type(None) in typing.get_args(f[2])]
+        for attr, wire, ann, req in nullable:
+            o = self.minimal(cls)
+            o[wire] = None
+            add(o)
+        if len(nullable) > 1:
+            o = self.minimal(cls)
+            for attr, wire, ann, req in nullable:
+                o[wire] = None
+            add(o)
         # subsets of optionals
         if optional:
             if exhaustive_optionals and len(optional) <= 8:
